@@ -50,6 +50,15 @@ ATOMS_MORE = [
     ("boolop", ["b = b and x < y or not b"]),
     ("chain-cmp", ["b = x <= y < 3"]),
     ("array-set", ["xs = array(x, y)", "xs[0] = y + 1", "x = xs[0]"]),
+    ("chain-cmp-mixed", ["b = 0 <= x < y"]),
+    ("chain-cmp-mixed", ["b = y > x >= 1"]),
+    ("chain-cmp-mixed", ["b = x < y <= 2 != x"]),
+    ("starred-array-mid", ["p, *q, r, s = array(y, x, 5, 7)", "x = r * 10 + s"]),
+    ("starred-array-tail", ["*q, r, s, u = array(y, x, 5, 7, 9)", "y = r * 100 + s * 10 + u"]),
+    ("starred-array-head", ["p, r, *q = array(y, x, 5)", "x = p * 10 + r"]),
+    ("or-chain", ["b = x > 1 or y > 1 or x == y"]),
+    ("and-chain", ["b = x >= 0 and y > 0 and x != y"]),
+    ("mixed-bool-chain", ["b = x > 1 or y > 1 and x == 0 or b"]),
 ]
 LOOP_I = ("loopvar", ["x += i"])
 LOOP_E = ("loopvar", ["y += e"])
